@@ -4,6 +4,7 @@ import (
 	"bytes"
 	"fmt"
 	"os"
+	"os/exec"
 	"path/filepath"
 	"strings"
 	"testing"
@@ -16,7 +17,7 @@ import (
 // TestVerifC02Agent: the schema's rules for unsupported / invalid hash files, through the agent's request interface
 // (the command line and the web API go through the same functions).
 func TestVerifC02Agent(t *testing.T) {
-	R := vr.New("C02", "agent", "an in-process agent (upgrades off and local) on a directory holding, next to valid users, hash files of every unsupported / invalid class (unknown parameter set, unknown algorithm, algorithm id of another set, empty digest, empty salt, truncated record, garbage, empty file, NUL bytes, huge line, both for .user and .admin): through the agent's request interface each such user must not authenticate with any password, be hidden from list, be shown as unsupported (or invalid) by list-full, be 'already exists' for add, be refused by update with the file left byte-identical, and be deleted by remove; the valid users are unaffected. Non-trivial: every (class, extension, operation); distinct by that tuple")
+	R := vr.New("C02", "agent", "an in-process agent (upgrades off and local) on a directory holding, next to valid users, hash files of every unsupported / invalid class (unknown parameter set, unknown algorithm, algorithm id of another set, empty digest, empty salt, truncated record, garbage, empty file, NUL bytes, huge line, both for .user and .admin): through the agent's request interface each such user must not authenticate with any password, be hidden from list (also the command line's `list`), be shown as unsupported (or invalid) by list-full (also `list --full`), be 'already exists' for add, be refused by update with the file left byte-identical, and be deleted by remove; the valid users are unaffected. Non-trivial: every (class, extension, operation); distinct by that tuple")
 	defer R.Write()
 	rng := R.Rand("c02a")
 	for ri, mode := range []string{"", "local"} {
@@ -101,6 +102,41 @@ func TestVerifC02Agent(t *testing.T) {
 			}
 			R.Case(b.class+"|update", true)
 			R.Count("update_on_unsupported", 1)
+		}
+		// the command line's own listing code (one process per command)
+		if bin := filepath.Join(os.Getenv("VERIF_BIN"), "whawty-auth"); ri == 0 {
+			if _, err := os.Stat(bin); err == nil {
+				short, e1 := exec.Command(bin, "--store", st.Cfg, "list").CombinedOutput()
+				long, e2 := exec.Command(bin, "--store", st.Cfg, "list", "--full").CombinedOutput()
+				R.Count("cli_listings", 2)
+				if e1 != nil || e2 != nil {
+					R.Violate("c02:cli:list-failed", fmt.Sprintf("list: %v / list --full: %v: %s %s", e1, e2, short, long), "cli/list", nil)
+				}
+				has := func(out []byte, name string) bool {
+					for _, f := range strings.FieldsFunc(string(out), func(r rune) bool {
+						return !(r == '.' || r == '-' || r == '_' || r == '@' || r >= '0' && r <= '9' || r >= 'a' && r <= 'z' || r >= 'A' && r <= 'Z')
+					}) {
+						if f == name {
+							return true
+						}
+					}
+					return false
+				}
+				for _, b := range bads {
+					if has(short, b.name) {
+						viol(b, "cli-list", "shown by the command line's list")
+					}
+					if !has(long, b.name) {
+						viol(b, "cli-list-full", "missing from the command line's list --full")
+					}
+					R.Case(b.class+"|cli-list", true)
+				}
+				for _, u := range users {
+					if !has(short, u.Name) {
+						R.Violate("c02:cli:valid-user-not-listed", u.Name, "cli/list", string(short))
+					}
+				}
+			}
 		}
 		// the valid users are unaffected, and the admin can still be told apart
 		for _, u := range users {
